@@ -144,13 +144,7 @@ func (e *Engine) Solve(dir string, timeoutS int, all bool, par chan struct{}) []
 		if !o.ExpectSat {
 			var la []*smt.Term
 			dropped := false
-			for _, a := range e.Assumes[:o.NAssume] {
-				if hasQuant(a, map[int]bool{}) {
-					dropped = true
-					continue
-				}
-				la = append(la, a)
-			}
+			la, dropped = groundParts(e.Assumes[:o.NAssume])
 			if dropped {
 				la = append(append(la, axioms...), o.Lemmas...)
 				la = append(la, e.C.Not(o.Cond))
@@ -224,13 +218,7 @@ func (e *Engine) Solve(dir string, timeoutS int, all bool, par chan struct{}) []
 		{
 			var la []*smt.Term
 			dropped := false
-			for _, a := range e.Assumes[:maxA] {
-				if hasQuant(a, map[int]bool{}) {
-					dropped = true
-					continue
-				}
-				la = append(la, a)
-			}
+			la, dropped = groundParts(e.Assumes[:maxA])
 			if dropped {
 				la = append(append(la, axioms...), e.C.Not(e.C.And(conds...)))
 				lightScript = e.C.Script(la, e.Extra, nil)
@@ -305,6 +293,29 @@ func MatchKey(pat, key string) bool {
 }
 
 func regexpCompile(p string) (*regexp.Regexp, error) { return regexp.Compile(p) }
+
+// groundParts: the quantifier-free conjuncts of the assumptions (top-level conjunctions are split, so the ground part
+// of an invariant such as poolInv survives when its quantified part is dropped).
+func groundParts(as []*smt.Term) (out []*smt.Term, dropped bool) {
+	var walk func(t *smt.Term)
+	walk = func(t *smt.Term) {
+		if !hasQuant(t, map[int]bool{}) {
+			out = append(out, t)
+			return
+		}
+		if t.Op == "and" {
+			for _, a := range t.Args {
+				walk(a)
+			}
+			return
+		}
+		dropped = true
+	}
+	for _, a := range as {
+		walk(a)
+	}
+	return
+}
 
 func hasQuant(t *smt.Term, seen map[int]bool) bool {
 	if seen[t.ID()] {
